@@ -413,7 +413,7 @@ def decode_dataclass(ti, d, tvmap, o):
             raise RefError("not-a-dict", holder=cls)
     fields = [(n, ft, f) for n, ft, f in tinfo.dc_fields(cls) if f.init]
     allow_name = cfg(cls, "allow_deserialization_not_by_alias", False)
-    if cfg(cls, "forbid_extra_keys", False) and fields:
+    if cfg(cls, "forbid_extra_keys", False):  # also for a class without constructor parameters: no key is expected
         allowed = set()
         for n, ft, f in fields:
             a = field_alias(cls, n, ft, f)
